@@ -10,6 +10,18 @@ func init() {
 	Properties["X-NUM"] = &Property{ID: "X-NUM", Level: "other", Run: func(c *Ctx, tier string) []*Result {
 		return []*Result{c.RuleNarrow(), c.RuleSiblingRuleId(), c.RuleSiblingLocator(), c.RuleCompareVerdict()}
 	}}
+	Properties["X-INCL"] = &Property{ID: "X-INCL", Level: "other", Run: func(c *Ctx, tier string) []*Result {
+		return []*Result{c.RuleRxIncl()}
+	}}
+	Properties["X-TXT"] = &Property{ID: "X-TXT", Level: "other", Run: func(c *Ctx, tier string) []*Result {
+		return []*Result{c.RuleEscParity(), c.RuleEscMatch(), c.RuleScanBound(), c.RuleFlagSet(), c.RuleSanitize()}
+	}}
+	Properties["X-ISO"] = &Property{ID: "X-ISO", Level: "other", Run: func(c *Ctx, tier string) []*Result {
+		return []*Result{c.RuleIsoFresh(), c.RuleIsoGlobal(), c.RuleIsoOwner(), c.RuleFlagsReject()}
+	}}
+	Properties["X-MISC"] = &Property{ID: "X-MISC", Level: "other", Run: func(c *Ctx, tier string) []*Result {
+		return append(c.RuleUpd(), c.RuleValidate(), c.RuleResolve(), c.RuleSplitJoinFrame(), c.RuleOrderKey())
+	}}
 	Properties["X-MAP"] = &Property{ID: "X-MAP", Level: "other", Run: func(c *Ctx, tier string) []*Result {
 		return []*Result{c.RuleMapOrder(), c.RuleDefFragment(), c.RuleNondetSrc([]string{"generate", "update", "compare", "format"})}
 	}}
